@@ -275,6 +275,9 @@ def main(argv: List[str]) -> int:
     print(json.dumps(by), f"of {len(res)} mutants; kill ratio {(by['killed']) / max(1, len(res)):.2f}")
     out = os.environ.get("AUTOMUT_OUT", "/tmp/automut.json")
     json.dump(res, open(out, "w"), indent=1)
+    if limit is None:
+        summ = os.path.join(os.path.dirname(os.path.dirname(os.path.dirname(os.path.abspath(__file__)))), "seeded", "automut_last.json")
+        json.dump({"total": len(res), **by}, open(summ, "w"))
     for r in sorted(res, key=lambda r: (r["rel"], r["line"])):
         if r["status"] != "killed":
             print(f"{r['status']:8s} {r['rel']}:{r['line']} {r['func']}: {r['desc']}  {r['unknown'] if r['unknown'] else ''}")
